@@ -3,10 +3,13 @@
 //! segment file -> real ClockBoundClient::now().  Must run inside a private mount namespace.
 //!   wld <drift_ppb> <cfg_refid|-1> <n> items...
 //!     P t mode d e phc refid leap interval kind age_s age_n corr delay disp   one poll iteration (see poller.rs)
-//!     C real_ns mono_ns                                                     one client call
+//!     C real1 mono1 real2 mono2                                             one client call: the first clock read of the
+//!                                                                           call (whichever clock it is) sees (real1, mono1),
+//!                                                                           every later read sees (real2, mono2) - time
+//!                                                                           passes between the two reads of now()
 //!     R t                                                                   daemon restart at time t (threads end, new ones start at the next P)
 //! -> per P: `p:<as_s>:<as_n>:<va_s>:<va_n>:<bound>:<drift>:<status>` (record in the segment after the iteration)
-//!    per C: `c:<result of ClockBoundClient::now()>`;  per R: `r`;  last: ORDER:...
+//!    per C: `c:<result of ClockBoundClient::now()>:<order of the clock reads, R = realtime, M = monotonic>`;  per R: `r`;  last: ORDER:...
 use crate::util::*;
 use crate::vclock;
 use bytes::BytesMut;
@@ -55,6 +58,9 @@ struct Shared {
     order_bad: AtomicUsize, // 0 = ok, k+1 = bad at poll k
     polls: AtomicUsize,
     phc_path: std::path::PathBuf,
+    /// a client call in progress: (thread id, realtime and monotonic values for the reads after the
+    /// first one, clocks read so far)
+    call: Mutex<Option<(i64, i64, i64, String)>>,
 }
 
 fn set_time_ns(ns: i64) {
@@ -178,6 +184,7 @@ pub fn run(toks: &[&str]) -> String {
         order_bad: AtomicUsize::new(0),
         polls: AtomicUsize::new(0),
         phc_path: phc_path.clone(),
+        call: Mutex::new(None),
     });
     let stop = Arc::new(AtomicBool::new(false));
     let (sh2, stop2) = (sh.clone(), stop.clone());
@@ -223,6 +230,20 @@ pub fn run(toks: &[&str]) -> String {
 
     let sh3 = sh.clone();
     vclock::set_hook(Some(Box::new(move |clk| {
+        {
+            let mut call = sh3.call.lock().unwrap();
+            if let Some((tid, real2, mono2, reads)) = call.as_mut() {
+                if vclock::gettid() == *tid {
+                    if reads.len() == 1 {
+                        // the first read of now() is over: time has passed before the second one
+                        vclock::set_real(real2.div_euclid(NS), real2.rem_euclid(NS));
+                        vclock::set_mono(mono2.div_euclid(NS), mono2.rem_euclid(NS));
+                    }
+                    reads.push(if clk == libc::CLOCK_REALTIME { 'R' } else { 'M' });
+                    return;
+                }
+            }
+        }
         if clk == libc::CLOCK_MONOTONIC_COARSE {
             sh3.coarse_seen.store(true, SeqCst);
             apply(&sh3);
@@ -284,13 +305,18 @@ pub fn run(toks: &[&str]) -> String {
             "C" => {
                 let real: i64 = p(toks[i + 1]);
                 let mono: i64 = p(toks[i + 2]);
-                i += 3;
+                let real2: i64 = p(toks[i + 3]);
+                let mono2: i64 = p(toks[i + 4]);
+                i += 5;
                 *sh.cur.lock().unwrap() = None;
-                vclock::set_real(real.div_euclid(NS), real.rem_euclid(NS));
-                vclock::set_mono(mono.div_euclid(NS), mono.rem_euclid(NS));
                 if client.is_none() {
+                    vclock::set_real(real.div_euclid(NS), real.rem_euclid(NS));
+                    vclock::set_mono(mono.div_euclid(NS), mono.rem_euclid(NS));
                     client = ClockBoundClient::new_with_path(seg_path.to_str().unwrap()).ok();
                 }
+                vclock::set_real(real.div_euclid(NS), real.rem_euclid(NS));
+                vclock::set_mono(mono.div_euclid(NS), mono.rem_euclid(NS));
+                *sh.call.lock().unwrap() = Some((vclock::gettid(), real2, mono2, String::new()));
                 let s = match client.as_mut() {
                     None => "c:noclient".to_string(),
                     Some(c) => match std::panic::catch_unwind(std::panic::AssertUnwindSafe(|| c.now())) {
@@ -308,7 +334,8 @@ pub fn run(toks: &[&str]) -> String {
                         }
                     },
                 };
-                out.push(s);
+                let order = sh.call.lock().unwrap().take().map(|c| c.3).unwrap_or_default();
+                out.push(format!("{}:{}", s, if order.is_empty() { "-".to_string() } else { order }));
             }
             "R" => {
                 let t: i64 = p(toks[i + 1]);
